@@ -93,14 +93,14 @@ T = {
 }
 RQ = [RU("cap2", depth=5), RU("ttl_tti", nkeys=2, depth=5), RU("cap_weight", nkeys=2, weights=(0, 1, 2, 5), depth=4),
       RS("cap1", depth=5), RS("cap2_ttl_tti_w", weights=(1, 5), depth=4)]
-RT = [RU("cap_unit", depth=6), RU("cap_weight", weights=(0, 1, 2, 5), depth=5), RU("expiry", depth=5, maxt=4),
+RT = [RU("ttl2", nkeys=2, depth=7), RU("tti2", nkeys=2, depth=7), RU("cap_unit", depth=6), RU("cap_weight", weights=(0, 1, 2, 5), depth=5), RU("expiry", depth=5, maxt=4),
       RU("cap_exp", nkeys=2, weights=(1, 2), depth=6), RU("cap_const", nkeys=3, weights=(0, 1, 2), depth=6),
       RS("cap_unit", depth=6), RS("cap2_w", weights=(0, 1, 2, 5), depth=6), RS("cap1_ttl", depth=7),
       RS("cap2_tti", depth=7), RS("cap2_ttl_tti_w", weights=(1, 5), depth=6), RS("cap_const", weights=(1, 2), depth=6),
       RS("cap1", nkeys=3, depth=6)]
 VQ = [("unsync-small", 120, 40), ("unsync-mid", 30, 120), ("sync-small", 120, 40), ("sync-mid", 30, 120),
       ("sync-eager", 40, 60), ("sync-far", 150, 16), ("sync-burst", 250, 3), ("sync-grow", 100, 2),
-      ("unsync-batch", 16, 0), ("sync-batch", 2, 0), ("unsync-exp", 200, 30), ("sync-exp", 120, 30)]
+      ("unsync-batch", 16, 0), ("sync-batch", 2, 0), ("unsync-exp", 500, 30), ("sync-exp", 120, 30)]
 VT = [("unsync-small", 2000, 60), ("unsync-mid", 400, 400), ("sync-small", 2000, 60), ("sync-mid", 400, 400),
       ("sync-eager", 600, 120), ("sync-far", 6000, 20), ("sync-burst", 7000, 4), ("sync-grow", 1200, 2),
       ("unsync-batch", 120, 0), ("sync-batch", 12, 0), ("unsync-exp", 4000, 40), ("sync-exp", 2000, 40)]
@@ -122,10 +122,17 @@ QSLICES = {
     "C08": ["cap2", "cap_weight2", "cap1_ttl", "s_cap1", "s_cap2_w", "s_cap1_ttl"],
 }
 
+# property-specific extra replay slices (quick tier)
+RQ_EXTRA = {
+    "C05": [RU("ttl2", nkeys=2, vals=(1,), depth=6)],
+    "C06": [RU("tti2", nkeys=2, vals=(1,), depth=6)],
+    "C07": [RU("ttl2", nkeys=2, vals=(1,), depth=6)],
+}
+
 SEQ_PLANS = {}
 for _p, _sl in QSLICES.items():
     SEQ_PLANS[_p] = dict(
-        quick=dict(mc=[dict(Q[n], name=n) for n in _sl], r=RQ, v=VQ),
+        quick=dict(mc=[dict(Q[n], name=n) for n in _sl], r=RQ + RQ_EXTRA.get(_p, []), v=VQ),
         thorough=dict(mc=[dict(c, name=n) for n, c in T.items()], r=RT, v=VT))
 # the C07 monitor remembers contains_key answers: keep its exhaustive universes at two keys
 SEQ_PLANS["C07"]["thorough"]["mc"] = [dict(c, name=n, nkeys=2) for n, c in T.items()] + [dict(Q["cap2"], name="cap2k3", timeout=1200)]
